@@ -795,6 +795,10 @@ class Peer:
 
         # CONNECTION FAILURE
         except NetworkError as network:
+            # report the session down before stop() resets the state machine, or the API sees an "up"
+            # which is never followed by its "down"
+            self._reset('closing connection', network)
+
             # Check if maximum connection attempts reached
             if not self.can_reconnect():
                 log.debug(
@@ -802,8 +806,6 @@ class Peer:
                     self.id(),
                 )
                 self.stop()
-
-            self._reset('closing connection', network)
             return
 
         # NOTIFY THE PEER OF AN ERROR
@@ -828,6 +830,11 @@ class Peer:
 
         # THE PEER NOTIFIED US OF AN ERROR
         except Notification as notification:
+            self._reset(
+                f'notification received ({notification.code},{notification.subcode})',
+                notification,
+            )
+
             # Check if maximum connection attempts reached
             if not self.can_reconnect():
                 log.debug(
@@ -835,11 +842,6 @@ class Peer:
                     self.id(),
                 )
                 self.stop()
-
-            self._reset(
-                f'notification received ({notification.code},{notification.subcode})',
-                notification,
-            )
             return
 
         # PROBLEM WRITING TO OUR FORKED PROCESSES
